@@ -9,10 +9,16 @@
      - every module starts with all start-up names (the built-ins);
      - calls and module bodies nest at most FRAMES_MAX deep: one more is an IndexError "Stack overflow."
        (for an import: after the source was loaded and compiled; like every failed import it leaves nothing);
-     - globals belong to the module whose source text contains the access (lexical), see ModLang.eval_spec.
+     - globals belong to the module whose source text contains the access (lexical), see ModLang.eval_spec;
+     - a function can outlive the load that defined it (it was stored in another module before that load failed).
+       It keeps belonging to the module instance of the failed load: when a load fails the instance is RETIRED -
+       it is filed under a fresh name "#<n>" (no import can reach it), every function value that referred to it
+       refers to "#<n>" from then on, and the path is unknown again.  A later load of the path is a different
+       module with its own globals; what the retired instance's functions read, write or define is the retired
+       instance's.
    Definitions only. *)
 From Coq Require Import List String NArith Bool Arith.
-From YV Require Import Modules.
+From YV Require Import Show Modules.
 Import ListNotations.
 Open Scope string_scope.
 
@@ -31,8 +37,23 @@ Record smod := mksmod { s_status : mstatus; s_globals : list (name * svalue) }.
 Record sstate := mksstate {
   s_mods : list (path * smod);
   s_loads : list path;      (* newest first *)
-  s_ran : list path         (* newest first *)
+  s_ran : list path;        (* newest first *)
+  s_old : list (path * smod)   (* retired instances (failed loads), keyed "#<n>", newest first *)
 }.
+
+(* the name of the n-th retired instance: not a module path ('#' first; `is_retired_name`) *)
+Definition retired_name (n : nat) : path := "#" ++ show_nat n.
+
+(* function values of module p now belong to q *)
+Definition rename_val (p q : path) (v : svalue) : svalue :=
+  match v with
+  | SFn p' f => if String.eqb p' p then SFn q f else v
+  | _ => v
+  end.
+Definition rename_mod (p q : path) (m : smod) : smod :=
+  mksmod (s_status m) (map (fun kv => (fst kv, rename_val p q (snd kv))) (s_globals m)).
+Definition rename_all (p q : path) (l : list (path * smod)) : list (path * smod) :=
+  map (fun km => (fst km, rename_mod p q (snd km))) l.
 
 Definition any_msg : string := "?".   (* wildcard in expected lines: the text does not fix this message *)
 
@@ -50,7 +71,7 @@ Section Spec.
   Definition startup_globals : list (name * svalue) := map (fun b => (b, SBuiltin b)) startup_names.
 
   Definition set_mod (st : sstate) (p : path) (m : smod) : sstate :=
-    mksstate (ainsert (s_mods st) p m) (s_loads st) (s_ran st).
+    mksstate (ainsert (s_mods st) p m) (s_loads st) (s_ran st) (s_old st).
 
   Definition spec_import (st : sstate) (p : path) : sstate * decision :=
     match alookup (s_mods st) p with
@@ -60,7 +81,7 @@ Section Spec.
       | Loading => (st, DRaise (mkerr KImport [cyc_msg p]))
       end
     | None =>
-      let st1 := mksstate (s_mods st) (p :: s_loads st) (s_ran st) in
+      let st1 := mksstate (s_mods st) (p :: s_loads st) (s_ran st) (s_old st) in
       match loader p with
       | LoadErr e => (st1, DRaise e)
       | LoadOk src =>
@@ -73,27 +94,43 @@ Section Spec.
 
   (* the module's top-level code starts: the module is Loading, with the start-up names *)
   Definition spec_begin (st : sstate) (p : path) : sstate :=
-    mksstate (ainsert (s_mods st) p (mksmod Loading startup_globals)) (s_loads st) (p :: s_ran st).
+    mksstate (ainsert (s_mods st) p (mksmod Loading startup_globals)) (s_loads st) (p :: s_ran st) (s_old st).
+
+  (* the load of p failed: its instance m leaves the modules and is filed under a fresh retired name; every
+     function value of p, wherever it is stored, is from now on a function of the retired instance *)
+  Definition retire (st : sstate) (p : path) (m : smod) : sstate :=
+    let q := retired_name (List.length (s_old st)) in
+    mksstate (rename_all p q (aremove (s_mods st) p)) (s_loads st) (s_ran st)
+             ((q, rename_mod p q m) :: rename_all p q (s_old st)).
 
   Definition spec_finish (st : sstate) (p : path) (ok : bool) : sstate :=
     match alookup (s_mods st) p with
     | Some m =>
       if ok then set_mod st p (mksmod Loaded (s_globals m))
-      else mksstate (aremove (s_mods st) p) (s_loads st) (s_ran st)
+      else retire st p m
     | None => st
     end.
 
+  (* a module or a retired instance, by name *)
   Definition sglobals (st : sstate) (p : path) : list (name * svalue) :=
-    match alookup (s_mods st) p with Some m => s_globals m | None => [] end.
+    match alookup (s_mods st) p with
+    | Some m => s_globals m
+    | None => match alookup (s_old st) p with Some m => s_globals m | None => [] end
+    end.
 
   Definition set_sglobal (st : sstate) (p : path) (x : name) (v : svalue) : sstate :=
     match alookup (s_mods st) p with
     | Some m => set_mod st p (mksmod (s_status m) (ainsert (s_globals m) x v))
-    | None => st
+    | None =>
+      match alookup (s_old st) p with
+      | Some m => mksstate (s_mods st) (s_loads st) (s_ran st)
+                           (ainsert (s_old st) p (mksmod (s_status m) (ainsert (s_globals m) x v)))
+      | None => st
+      end
     end.
 
   Definition spec_init : sstate :=
-    mksstate [(main_path, mksmod Loading startup_globals)] [] [].
+    mksstate [(main_path, mksmod Loading startup_globals)] [] [] [].
 End Spec.
 
 Arguments DSame {Body}. Arguments DRaise {Body}. Arguments DRun {Body}.
